@@ -519,6 +519,7 @@ func run(id, tier string) int {
 	var infra []string
 	var races []string
 	evals := 0
+	planned := m.NumCases
 	covered := map[int]bool{}
 	var cpuMs int64
 	for _, r := range results {
@@ -530,7 +531,13 @@ func run(id, tier string) int {
 				continue // block re-run after a crash restart
 			}
 			covered[b.From] = true
-			evals += b.To - b.From
+			if n := b.Events["inputs_evaluated"]; n > int64(b.To-b.From) {
+				// a case of this property is a batch of inputs
+				evals += int(n)
+				planned += int(n) - (b.To - b.From)
+			} else {
+				evals += b.To - b.From
+			}
 			cpuMs += b.CPUms
 			for _, k := range b.Keys {
 				keys[k] = struct{}{}
@@ -647,6 +654,10 @@ func run(id, tier string) int {
 	sort.Strings(classes)
 	violations := 0
 	knownCounts := map[string]int{}
+	if dump := os.Getenv("VERIF_DUMP_FAILS"); dump != "" {
+		raw, _ := json.MarshalIndent(byClass, "", " ")
+		os.WriteFile(dump, raw, 0o644)
+	}
 	os.MkdirAll(filepath.Join(verifRoot, "replays", id), 0o755)
 	for _, c := range classes {
 		fs := byClass[c]
@@ -670,8 +681,8 @@ func run(id, tier string) int {
 	}
 
 	// ---- conclusiveness
-	if evals < m.NumCases {
-		infra = append(infra, fmt.Sprintf("only %d of %d cases were evaluated", evals, m.NumCases))
+	if evals < planned {
+		infra = append(infra, fmt.Sprintf("only %d of %d cases were evaluated", evals, planned))
 	}
 	for _, k := range m.MinEvents {
 		if events[k] == 0 {
@@ -709,7 +720,8 @@ func run(id, tier string) int {
 		"known_finding_cases": knownCounts,
 		"known_finding_witnesses_still_failing": knownHits,
 		"inconclusive_reasons": infra,
-		"case_count_planned":   m.NumCases,
+		"case_count_planned":   planned,
+		"batches":              m.NumCases,
 	}
 	ev := map[string]interface{}{
 		"property_id": id,
